@@ -221,6 +221,14 @@ static void run_script(const Plan &p, const Script &sc, Result &res) {
         }
         // invariants of single calls (checked on the fresh object's result so that they hold regardless of history)
         // (ns_search = true is the documented way to switch the trivial-solution exit off)
+        // a preconditioner application (of the preconditioner, or of the whole bundle through its apply()) has no initial guess:
+        // whatever x held before the call must not matter
+        if ((k == O_APPLY || k == O_OUTER_APPLY) && want.exc.empty()) {
+            Op op3 = op2; if (op3.a.size() > 1) op3.a[1] ^= 1;      // the other initial content of x (zero / non-zero)
+            std::unique_ptr<S> fresh2(construct<S>(sc)); for (size_t q = 0; q < rebuilds.size(); ++q) rebuild(*fresh2, sc, rebuilds[q]);
+            OpOut other = do_op(*fresh2, sc, op3, cx);
+            if (!other.equal(want)) res.fail(sig("apply-ignores-previous-x", "output-only", op.kind, fmt("%s with x = 0 and with x != 0 on entry give different results (first difference at %ld)", op.kind.c_str(), first_diff(other.x, want.x))));
+        }
         if (k == O_SOLVE_ZERO_RHS && want.exc.empty() && p.get("solver") != 8 && !sc.prm.get("solver.ns_search", false)) {     // preonly is not an iterative method: it returns P*rhs whatever P is
             bool allzero = true; for (size_t q = 0; q < want.x.size(); ++q) if (want.x[q] != 0) allzero = false;
             if (!allzero || want.iters != 0) res.fail(sig("zero-rhs-gives-zero", "zero-rhs", op.kind, fmt("iters=%.0f, x %s zero", want.iters, allzero ? "is" : "is not")));
